@@ -616,3 +616,33 @@ Proof.
     + now rewrite Z.testbit_neg_r by lia.
     + apply Z.bits_above_log2; [lia|]. cbn. lia.
 Qed.
+
+(* glyf/loca: the tables put into the new font are the builder's data and its encoded offsets, and
+   the loca format never changes *)
+Lemma patch_glyf_inv f views maxgid adds :
+  patch_glyf f views maxgid = inr adds ->
+  exists glyf T offs os ds,
+    lookup f T_glyf = Some glyf /\ read_loca f = Some (T, offs) /\
+    patch_offset_array views T_glyf offs glyf T [T] (6, 10) maxgid = inr (T, os, ds) /\
+    adds = [(T_glyf, ds); (T_loca, encode_offsets T os)].
+Proof.
+  unfold patch_glyf. destruct (lookup f T_glyf) as [glyf|]; [|discriminate].
+  destruct (read_loca f) as [[T offs]|]; [|discriminate].
+  destruct (patch_offset_array views T_glyf offs glyf T [T] (6, 10) maxgid) as [?|[[T' os] ds]] eqn:E; cbn [bind]; [discriminate|].
+  destruct (otype_eqb T' T) eqn:Q; cbn [negb]; [|discriminate].
+  intros H; inversion H; subst.
+  assert (T' = T).
+  { unfold patch_offset_array in E. destruct (dedup views T_glyf) as [[? ?]|m]; [discriminate|].
+    destruct (retained_total _ offs _ 0); cbn [bind] in E; [discriminate|].
+    match type of E with context [choose_type T [T] ?tt] => destruct (choose_type T [T] tt) as [?|T0] eqn:C end;
+      cbn [bind] in E; [discriminate|].
+    destruct (last _ 0 >? maxgid); [discriminate|]. destruct (ascending offs); cbn [negb] in E; [|discriminate].
+    match type of E with context [build_runs ?a ?b ?c ?d offs glyf T0 ?e 0 [] []] =>
+      destruct (build_runs a b c d offs glyf T0 e 0 [] []) as [?|[o1 d1]] end; cbn [bind] in E; [discriminate|].
+    inversion E; subst.
+    apply choose_type_spec in C. destruct C as [[_ ->]|[_ [_ [pre [post [Hp _]]]]]]; [reflexivity|].
+    destruct pre as [|a pre]; cbn in Hp; [inversion Hp; reflexivity|].
+    inversion Hp as [[Ha Hrest]]. destruct pre; discriminate. }
+  subst T'. exists glyf, T, offs, os, ds. auto.
+Qed.
+
